@@ -177,6 +177,8 @@ class GroupMachine(Machine):
             elif u < 0.18:
                 ops.append({"op": "setobs", "idx": [rng.randrange(6) for _ in range(rng.randint(0, 5))],
                             "as": rng.choice(["list", "tuple"])})
+                if rng.random() < 0.4:
+                    ops.append({"op": "caller.mutate", "how": rng.choice(["append", "pop", "clear"]), "i": rng.randrange(6)})
             elif u < 0.58:
                 a = rng.choice(focus)
                 kinds = ["scalar", "scalar", "list", "tuple", "short", "long", "empty"]
@@ -267,6 +269,7 @@ class GroupMachine(Machine):
                 c.group.add_observer(c.pool[i])
         c.members = list(init)                 # model: ordered pool indices
         c.mutations = 0
+        c.last_list = None
         c.lastkind = "-"
         # model of member records is the observers' own state read at start (then updated by broadcast ops)
         c.model = [self._snapshot_member(c, o) for o in c.pool]
@@ -422,6 +425,7 @@ class GroupMachine(Machine):
                     g.observers = val
                 c.members = idx
                 c.mutations += 1
+                c.last_list = val if isinstance(val, list) else None
             except TypeError as e:
                 if c.is_cam and op["as"] == "tuple":
                     out = "raised:TypeError"        # documented: must be a list
@@ -430,6 +434,19 @@ class GroupMachine(Machine):
             except Exception as e:
                 raise Violation("setobs-refused", c.gname, "assigning observers raised %s: %s" % (type(e).__name__, e))
             detail = op["as"]
+        elif k == "caller.mutate":
+            # the caller goes on editing the list object it handed to the group: membership must not follow
+            lst = getattr(c, "last_list", None)
+            if lst is None:
+                return "noop"
+            if op["how"] == "append":
+                lst.append(c.pool[op["i"]])
+            elif op["how"] == "pop" and lst:
+                lst.pop()
+            else:
+                del lst[:]
+            env.probe("caller_list_mutated_after_assignment")
+            detail = op["how"]
         elif k == "addwrong":
             how = op["how"]
             before = self._full_state(c)
